@@ -269,17 +269,17 @@ def judgeSeq (line : String) : String :=
     match hexToText ((h.drop 1).toString) with
     | none => "BAD hex"
     | some txt =>
-      match parseJsonRaw txt with
+      -- `decodeText` (Unmarshal.lean) = RFC 8259 scan with `rawPn`, literal-level json.Unmarshal with `rangeConv`,
+      -- FromGeoJSON: the function C06_text_decode_driver / C06_text_decode_lit_sound are about.  The driver's literals
+      -- are bit patterns in which ±Inf stands for "value out of the binary64 range".
+      match decodeText rawPn rangeConv txt with
       | none =>
         -- not an RFC 8259 JSON text (total parser of Text.lean): json.Unmarshal must answer SyntaxError
         if rhs == ["err", "syntax"] then "OK dec-notjson"
         else if rhs.head? == some "panic" then s!"SPEC dec-notjson decoder-{rhsS}"
         else s!"DIFF dec-notjson driver-parser-rejects-the-text impl={rhsS} doc={String.ofList txt}"
-      | some t =>
-        -- literal-level model of json.Unmarshal (Unmarshal.lean, closed form proved in UnmarshalProofs.lean): the
-        -- driver's literals are bit patterns in which ±Inf stands for "value out of the binary64 range"
-        let m := fromTreeL rangeConv t
-        let cls := if coordsOverflow t then "dec-number-overflow"
+      | some m =>
+        let cls := if (parseJsonRaw txt).any coordsOverflow then "dec-number-overflow"
           else "dec-" ++ (match m with | .ok g => geomClass g | .error e => "err-" ++ errName e)
         if rhs.head? == some "panic" then s!"SPEC {cls} decoder-{rhsS}"
         else if showGeomRes m == rhsS then s!"OK {cls}"
